@@ -787,8 +787,10 @@ Section Model.
                          (set_obj w i (OThreaded t'), if ok then OUnit else OPanic)
         | _ => (w, OUnsupported)
         end
-    | NewRodeo cap lim => new_slot w (ORodeo (rodeo_new cap lim))
-    | NewThreaded cap lim => new_slot w (OThreaded (trodeo_new cap lim))
+    (* the first bucket of `cap` bytes is allocated at once: a capacity no Layout can describe is a failed
+       allocation, on which the (infallible) constructors panic *)
+    | NewRodeo cap lim => if isize_max <? cap then (w, OPanic) else new_slot w (ORodeo (rodeo_new cap lim))
+    | NewThreaded cap lim => if isize_max <? cap then (w, OPanic) else new_slot w (OThreaded (trodeo_new cap lim))
     end.
 
   Fixpoint run (w : world) (ops : list op) : world * list out :=
